@@ -365,6 +365,15 @@ def job_matrix(job, nx):
                     if abs(i - j) > 1:
                         bad.append(T.b_not(T.b_eq0(P(M[i][j]))))
             bad.append(T.b_not(T.b_eq0(P(rs - 1))) if i else T.b_lt(P(rs), T.ONE))
+        import numpy as np
+        from bluebonnet.flow import reservoir as rr
+        r = rng(job, nx)
+        kv = [r.uniform(0.01, 50) for _ in range(nx)]
+        real = rr._build_matrix(np.array(kv)).toarray()
+        env = {f"k{j}": kv[j] for j in range(nx)}
+        for i in range(nx):
+            for j in range(max(0, i - 1), min(nx, i + 2)):
+                job.validate("_build_matrix entry", evalf(M[i][j], env), float(real[i, j]), inputs={"i": i, "j": j, "k": kv})
         job.prove(f"matrix[nx={nx}]/tridiagonal, diagonal > 0, off-diagonals <= 0, unit row sums (frac-face row >= 1)",
                   pr.pc + [T.b_or(*bad)], bound=f"nx={nx}, any positive kt/h2", replay=(replay_matrix, {"nx": nx}))
 
